@@ -46,13 +46,21 @@ MANIFEST = dict(
          "Proved for all inputs of the stated domains: the reader returns exactly the chart the document denotes under the "
          "format's defaults (any keys omitted in some or all records) and that chart is strict; the writer's document is "
          "well-formed and denotes the chart with every time moved < 1 ms; both round trips as compositions; oracle soundness; "
-         "truncation/no-drift and Tags laws; _refuted theorems about the OLD reader/defaults models. On every run the model is "
+         "truncation/no-drift and Tags laws; _refuted theorems about the OLD reader/defaults models. Generations at whole-document "
+         "level: every written document has the decidable shape gen_docb, write o read maps every document of that shape to the "
+         "same document (doc_same: same keys in the same order, identical metadata values and note records, point records equal "
+         "as key->value maps), so generation 2 = generation 1 and every later generation is generation 2 exactly (Leibniz "
+         "equality of generations 1 and 2 refuted for non-default timing-point column order; reamber agrees: only that key order "
+         "differs in the text). Resolution 0: document times are integers, so write(read d) denotes exactly what d denotes and "
+         "read(write(read d)) is exactly the chart read d. The reader / write-after-read oracles are complete; the writer oracles "
+         "are exactly the positional relations (completeness for the permutation-closed relation refuted). On every run the model is "
          "compared in Coq with the implementation on generated documents and in-memory charts (native and produced by the four "
          "converters), two generations deep, and the proven-sound oracle is evaluated on the implementation's outputs.",
     note="Trusted: Coq kernel+VM, harness generator/serialiser, PyYAML as a tested oracle, live tables translator. "
          "All seven defect classes found on the pinned tree are repaired (4a9b03a, 3b9da0f, 736886e, e825b78) and recorded as "
-         "'fixed'; a recurrence raises a VIOLATION labelled regression:<key>. Not proved: whole-document generation stability, "
-         "oracle completeness, charts outside the strict domain (correspondence only).",
+         "'fixed'; a recurrence raises a VIOLATION labelled regression:<key>. The writer oracle write_specb compares record i with "
+         "row i (an order-changing but correct writer would be a false alarm, never a missed violation). Not proved: charts "
+         "outside the strict domain (extra columns, NaN cells: correspondence only).",
     technique="Coq proof over executable model + vm_compute correspondence and oracle on implementation output",
     design="4/C06, B.2")
 
